@@ -96,6 +96,10 @@ def last_step_for(rng, cur, mode):
             return ["k", rng.choice(gen.KEYS)]
         if r < 0.8:
             return ["i", rng.choice([0, 1, -1])]
+    if rng.random() < 0.35:
+        # a comma list with a single entry is still a comma list (not assignable / not poppable)
+        one = rng.choice(list(cur.keys())) if isinstance(cur, dict) and cur else (rng.choice([0, -1, len(cur)]) if isinstance(cur, list) else rng.choice(["a", 0]))
+        return ["t", [one]]
     return rng.choice([["wc"], ["iwc"], ["gwc"], ["rec"], ["par"], ["s", None, None, None], ["t", ["a", 0]],
                        ["f", ["all", []]]])
 
